@@ -48,6 +48,7 @@ type subLog struct {
 }
 
 type round struct {
+	light bool     // callbacks do nothing but record (walk rounds: the snapshot walk is then a large part of a write)
 	extra []string // further request lines of the round (reads)
 	clock atomic.Int64
 	mu    sync.Mutex
@@ -79,10 +80,10 @@ func (rd *round) body(s *subLog, note string) {
 		s.direct.CompareAndSwap(nil, "after-unsubscribe")
 	}
 	s.add(st, "e:"+note)
-	if st%3 == 0 {
+	if st%3 == 0 && !rd.light {
 		runtime.Gosched()
 	}
-	if st%7 == 0 {
+	if st%7 == 0 && !rd.light {
 		x := 0
 		for i := 0; i < 300; i++ {
 			x += i
@@ -564,6 +565,210 @@ func stressDerivedSet(r *hx.Run, rng *hx.Rng) bool {
 	return true
 }
 
+// stressWalk: a callback list that is kept long (30-70 resident subscriptions with callbacks that only record), one
+// writer, and 2-3 churners that each keep a small pool of further subscriptions at the back of the list, adding one or
+// unsubscribing a random one of them all the time, plus an unsubscriber that removes residents from the middle.  The
+// snapshot walk (`registeredCallbacks.Values()`) is a large part of every write here and there are hundreds of
+// removals per round with other subscriptions registered behind the removed one, so an unsubscription that is not
+// atomic with respect to the walk is hit often.  Every subscription must see every change made while it is registered.
+func stressWalk(r *hx.Run, rng *hx.Rng) bool {
+	const kind = "walk-var"
+	v := reactive.NewVariable[int]()
+	rd := &round{light: true}
+	sig := func(o string) map[string]string {
+		return map[string]string{"oracle": o, "mode": "stress", "kind": kind}
+	}
+	sub := func(s *subLog) bool {
+		if p := hx.Safely(func() {
+			s.unsub = v.OnUpdate(func(p, nw int) { rd.body(s, strconv.Itoa(p)+":"+strconv.Itoa(nw)) })
+		}); p != "" {
+			r.Fail("panic", "OnUpdate panicked: "+p, sig("panic"))
+
+			return false
+		}
+
+		return true
+	}
+	n := rng.Range(30, 70)
+	for i := 0; i < n; i++ {
+		if !sub(rd.newSub()) {
+			return false
+		}
+	}
+	residents := append([]*subLog(nil), rd.subs...)
+	writes := rng.Range(200, 500)
+	var wg sync.WaitGroup
+	var stop atomic.Bool
+	start := make(chan struct{})
+	wg.Add(1)
+	go func() {
+		defer wg.Done()
+		defer stop.Store(true)
+		<-start
+		if p := hx.Safely(func() {
+			for j := 1; j <= writes; j++ {
+				v.Set(j)
+			}
+		}); p != "" {
+			r.Fail("panic", "writer panicked: "+p, sig("panic"))
+		}
+	}()
+	for k := rng.Range(2, 3); k > 0; k-- {
+		cr := hx.NewRng(rng.U64())
+		wg.Add(1)
+		go func() {
+			defer wg.Done()
+			<-start
+			var pool []*subLog
+			for ops := 0; ops < 600 && !stop.Load(); ops++ {
+				if len(pool) < 4 && (len(pool) == 0 || cr.Bool()) {
+					s := rd.newSub()
+					if !sub(s) {
+						return
+					}
+					pool = append(pool, s)
+				} else {
+					i := cr.Intn(len(pool))
+					s := pool[i]
+					pool = append(pool[:i], pool[i+1:]...)
+					if p := hx.Safely(func() { rd.doUnsub(s) }); p != "" {
+						r.Fail("panic", "unsubscribe panicked: "+p, sig("panic"))
+
+						return
+					}
+				}
+				if cr.Chance(1, 4) {
+					runtime.Gosched()
+				}
+			}
+		}()
+	}
+	ur := hx.NewRng(rng.U64())
+	wg.Add(1)
+	go func() {
+		defer wg.Done()
+		<-start
+		for i := 2; i < len(residents)-32 && !stop.Load(); i++ {
+			runtime.Gosched()
+			if ur.Bool() {
+				if p := hx.Safely(func() { rd.doUnsub(residents[i]) }); p != "" {
+					r.Fail("panic", "unsubscribe panicked: "+p, sig("panic"))
+
+					return
+				}
+			}
+		}
+	}()
+	close(start)
+	if !join(&wg) {
+		r.Fail("timeout", fmt.Sprintf("walk round did not finish within %s", joinTimeout), sig("timeout"))
+
+		return false
+	}
+	hist := make([]string, writes+1)
+	for i := range hist {
+		hist[i] = strconv.Itoa(i)
+	}
+	r.CountN("stress:walk-var:subscriptions", len(rd.subs))
+	emitSparse(r, kind, "vhist "+strings.Join(hist, " "), rd, strconv.Itoa(v.Get()))
+
+	return true
+}
+
+// stressTwin: the same unsubscribe function called by two goroutines at the same time (unsubscribing is idempotent;
+// OnUpdateOnce itself does `go unsubscribe()` and hands the same function to its caller), with exactly one other
+// subscription on the object, which must go on seeing every change.
+func stressTwin(r *hx.Run, rng *hx.Rng) bool {
+	for attempt := 0; attempt < 40; attempt++ {
+		v := reactive.NewVariable[int]()
+		rd := &round{light: true}
+		b, a := rd.newSub(), rd.newSub()
+		nb := rng.Range(1, 2) // bystanders
+		var c *subLog
+		first := rng.Bool()
+		sub := func(s *subLog) {
+			s.unsub = v.OnUpdate(func(p, nw int) { rd.body(s, strconv.Itoa(p)+":"+strconv.Itoa(nw)) })
+		}
+		if first {
+			sub(a)
+			sub(b)
+		} else {
+			sub(b)
+			sub(a)
+		}
+		if nb == 2 {
+			c = rd.newSub()
+			sub(c)
+		}
+		v.Set(1)
+		var ready atomic.Int32
+		var wg sync.WaitGroup
+		for g := 0; g < 2; g++ {
+			wg.Add(1)
+			go func() {
+				defer wg.Done()
+				ready.Add(1)
+				for ready.Load() < 2 {
+					runtime.Gosched()
+				}
+				if p := hx.Safely(func() { a.unsubbed.Store(true); a.unsub() }); p != "" {
+					r.Fail("panic", "unsubscribe panicked: "+p, map[string]string{"oracle": "panic", "mode": "stress", "kind": "twin-var"})
+				}
+			}()
+		}
+		if !join(&wg) {
+			r.Fail("timeout", "two concurrent calls of one unsubscribe function did not return", map[string]string{"oracle": "timeout", "mode": "stress", "kind": "twin-var"})
+
+			return false
+		}
+		a.returned.Store(true)
+		a.add(rd.clock.Add(1), "u")
+		if c != nil && rng.Bool() {
+			rd.doUnsub(c)
+		}
+		writes := rng.Range(1, 3)
+		if p := hx.Safely(func() {
+			for j := 2; j < 2+writes; j++ {
+				v.Set(j)
+			}
+		}); p != "" {
+			r.Fail("panic", "writer panicked: "+p, map[string]string{"oracle": "panic", "mode": "stress", "kind": "twin-var"})
+		}
+		hist := []string{"0", "1"}
+		for j := 2; j < 2+writes; j++ {
+			hist = append(hist, strconv.Itoa(j))
+		}
+		before := len(r.Findings)
+		emitSparse(r, "twin-var", "vhist "+strings.Join(hist, " "), rd, strconv.Itoa(v.Get()))
+		if len(r.Findings) > before {
+			return true
+		}
+	}
+
+	return true
+}
+
+// emitSparse judges every log of a round with the Go oracle but prints only the first three and the failing ones
+// (rounds with hundreds of subscriptions).
+func emitSparse(r *hx.Run, kind, histLine string, rd *round, final string) {
+	curCtx = &judgeCtx{kind: kind}
+	r.Line(histLine, judgeLogLine(r, histLine))
+	for i, s := range rd.subs {
+		line := s.line("vsub", final)
+		if d, _ := s.direct.Load().(string); d != "" {
+			fail(r, kind, d, "observed from inside the callback", line)
+		}
+		before := len(r.Findings)
+		ans := judgeLogLine(r, line)
+		if i < 3 || len(r.Findings) > before {
+			r.Line(line, ans)
+		}
+		r.Count("stress:" + kind + ":subscriptions:" + strings.Fields(line)[1])
+	}
+	r.Count("stress:" + kind + ":rounds")
+	curCtx = &judgeCtx{}
+}
+
 // ---- emitting and judging the logs -----------------------------------------------------------------------------
 
 // judgeCtx carries what the lines of one round refer to: the variable's value history, the reference subscription.
@@ -591,6 +796,9 @@ func fail(r *hx.Run, kind, oracle, detail, line string) {
 		line = line[:600] + "…"
 	}
 	sig := map[string]string{"oracle": oracle, "mode": "stress", "kind": kind}
+	if strings.HasPrefix(kind, "dir-") {
+		sig["mode"] = "directed"
+	}
 	r.Fail(oracle, detail+" | "+line, sig)
 	if sideFile != nil {
 		if b, err := json.Marshal(hx.Finding{Oracle: oracle, Detail: detail + " | " + line, Signature: sig}); err == nil {
@@ -815,6 +1023,10 @@ func stressOne(r *hx.Run, kind string, seed uint64) bool {
 		return stressDerivedSet(r, rng)
 	case "varx":
 		return stressVarx(r, rng)
+	case "walk-var":
+		return stressWalk(r, rng)
+	case "twin-var":
+		return stressTwin(r, rng)
 	case "crowd-var", "crowd-set", "crowd-event", "crowd-dset":
 		crowd = rng.Range(40, 80)
 		defer func() { crowd = 0 }()
@@ -857,7 +1069,7 @@ func runStress(r *hx.Run) {
 	runDirPart(r)
 	rounds := 4000 * r.Scale
 	kinds := []string{"var", "set", "dset", "var", "crowd-var", "set", "event", "dset", "crowd-set", "var", "set", "crowd-event",
-		"var", "set", "dset", "crowd-var", "event", "set", "crowd-dset", "var", "varx", "varx", "varx", "varx", "varx"}
+		"var", "set", "dset", "crowd-var", "event", "set", "crowd-dset", "var", "varx", "varx", "varx", "varx", "varx", "walk-var", "twin-var"}
 	for i := 0; i < rounds; i++ {
 		seed := r.Rng.U64()
 		kind := kinds[i%len(kinds)]
